@@ -114,6 +114,15 @@ func buildOverlay(rel string, native bool) (map[string][]byte, []string) {
 		ov[p] = []byte(strings.ReplaceAll(string(nt), "PKGNAME", pkgName))
 		files = append(files, p)
 	}
+	if _, err := os.Stat(filepath.Join(dir, ".httputil")); err == nil {
+		nt, err := os.ReadFile(filepath.Join(verifDir, "harness", "_tmpl", "httputil.go.tmpl"))
+		if err != nil {
+			fatalf("%v", err)
+		}
+		p := filepath.Join(repoDir, rel, "zz_vf_httputil.go")
+		ov[p] = []byte(strings.ReplaceAll(string(nt), "PKGNAME", pkgName))
+		files = append(files, p)
+	}
 	return ov, files
 }
 
